@@ -697,13 +697,13 @@ def c14(tier, replay=None):
     chk = Check("C14", tier, "model_checking")
     T = chk.thorough()
     # (M) the reader's token machine for let (SmtLetParser.tla, transcribed from parse_expr_or_type / NestedSymbolTable) against
-    # the standard meaning of let on every term of a small language: Agree (single-binding lets), MultiErr (several bindings
-    # are rejected, never misread)
-    consts = {"Full": "TRUE" if T else "FALSE"}
-    mcfg = pv.write_cfg(chk.work / "SmtLetParser.cfg", constants=consts, invariants=("Agree", "MultiErr"))
+    # the standard meaning of let on every term of a small language
+    # (Repaired = TRUE: the reader after fix f506184, lets with several bindings; AgreeAll: machine = meaning on EVERY term)
+    consts = {"Full": "TRUE" if T else "FALSE", "Repaired": "TRUE"}
+    mcfg = pv.write_cfg(chk.work / "SmtLetParser.cfg", constants=consts, invariants=("Agree", "AgreeAll"))
     r = pv.tlc_ok("SmtLetParser", mcfg, workers=8, timeout=7200, xmx="8g")
     chk.add_states(r.generated, r.distinct)
-    chk.part("SmtLetParser_model", terms=r.distinct, invariants="Agree, MultiErr")
+    chk.part("SmtLetParser_model", terms=r.distinct, invariants="Agree, AgreeAll (repaired reader)")
     trace = chk.work / "trace.ndjson"
     vtrace = chk.work / "values.ndjson"
     ltrace = chk.work / "let.ndjson"
@@ -730,7 +730,7 @@ def c14(tier, replay=None):
         if replay:
             pv.write_ndjson(ltrace, [json.loads(Path(replay).read_text())["detail"]["record"]])
         else:
-            terms, _, _ = pv.generate("SmtLetParser", {"Full": "FALSE"}, "smtlet", workers=4, deps=["SmtLetParser"])
+            terms, _, _ = pv.generate("SmtLetParser", {"Full": "FALSE", "Repaired": "TRUE"}, "smtlet", workers=4, deps=["SmtLetParser"])
             # all terms without the unbound name x, and a seeded sample of those that mention it (nearly all of them errors)
             has_x = lambda t: '"x"' in json.dumps(t)
             terms = [t for t in terms if not has_x(t)] + pv.subsample([t for t in terms if has_x(t)], 12000 if T else 3000, pv.seed())
